@@ -50,7 +50,12 @@ def configure(tier, seed):
                forms=['list', 'dict_sep', 'dict_same', 'dict_dup'], strategies=['TrieTree'])
     n_t = 2 * len(CFG['strings_t'])
     n_m = 2 * 4 * len(dicts) * len(CFG['queries'])
-    return {'shard_depth': 99, 'space_size': n_t + n_m, 'progress': 200,
+    # parts W (write monitor) and C (two callers share one freshly initialised matcher, every schedule up to the bound)
+    CFG.update(cdicts=[('a',), ('a b',), ('a', 'a b'), ('a$1', '1'), ('ab1', 'b')], cqueries=['a b a', 'b a$1 1', 'ab1 a b'],
+               preemptions=2 if thorough else 1)
+    n_w = 2 * 4 * len(CFG['cdicts'])
+    n_c = 2 * 4 * len(CFG['cdicts']) * len(CFG['cqueries']) ** 2
+    return {'shard_depth': 99, 'space_size': n_t + n_m + n_w + n_c, 'progress': 200,
             'bounds': {'tokenizer_alphabet': SIGMA_T, 'tokenizer_max_len': lt, 'matcher_query_alphabet': sig_q,
                        'matcher_query_max_len': lq_eff, 'phrases': len(phrases), 'dictionaries': len(dicts),
                        'pair_pool': len(pair_pool)},
@@ -179,9 +184,64 @@ def _find(m, q):
     return sorted((r.start, r.length, r.text, tuple(sorted(r.canonical_values))) for r in m.find(q))
 
 
+def shared_matcher(ch, part, kind):
+    """W: find() must not write to the matcher it searches (a matcher lives inside a cached model and is searched by every
+    caller).  C: two callers search one freshly initialised matcher; every schedule with <= bound preemptions at the entry of
+    every function of the matcher package; each caller must get what the reference expects."""
+    import os
+    from vmc import env, sched, state
+    form = ch.pick('form', CFG['forms'])
+    d = ch.pick('dictionary', CFG['cdicts'])
+    ch.shard()
+    if part == 'find-writes':
+        m, pids = _matcher(kind, form, d)
+        before = state.fingerprint([('matcher', m)])
+        for n, q in enumerate(CFG['cqueries']):
+            got = _find(m, q)
+            after = state.fingerprint([('matcher', m)])
+            diff = state.diff_fingerprints(before, after)
+            if diff['n']:
+                ch.fail('W|%s|%s|%s' % (kind, form, 'first-find-writes' if n == 0 else 'find-writes'),
+                        {'tokenizer': kind, 'form': form, 'dictionary': d, 'query': q, 'state_diff': diff})
+                return
+            before = after
+        ch.ok(nontrivial=True, outcome='W', evals=len(CFG['cqueries']))
+        return
+    qa = ch.pick('query_a', CFG['cqueries'])
+    qb = ch.pick('query_b', CFG['cqueries'])
+    lib = os.path.join(env.REPO, 'Python', 'libraries')
+    gran = ('dirs', (os.path.join('recognizers_text', 'matcher', ''),))
+    holder = {}
+
+    def prepare():
+        holder['m'], holder['pids'] = _matcher(kind, form, d)
+    bodies = [lambda: _find(holder['m'], qa), lambda: _find(holder['m'], qb)]
+    counts = []
+    for first in (0, 1):
+        prepare()
+        counts.append(sched.run_plan(lib, gran, [(first, None), (1 - first, None)], bodies).points[first])
+    plans = sched.plans_up_to(CFG['preemptions'], counts)
+    prepare()
+    exp = [ref_find(qa, holder['pids'], kind), ref_find(qb, holder['pids'], kind)]
+    for plan in plans:
+        prepare()
+        ex = sched.run_plan(lib, gran, plan, bodies)
+        ch.tally('schedules')
+        ch.tally('context_switches', ex.switches)
+        got = [ex.results[i] if ex.errors[i] is None else 'EXC ' + ex.errors[i] for i in (0, 1)]
+        if got != exp:
+            ch.fail('C|%s|%s|two-callers-one-fresh-matcher' % (kind, form),
+                    {'tokenizer': kind, 'form': form, 'dictionary': d, 'queries': [qa, qb], 'plan': plan, 'expected': exp,
+                     'observed': got}, evals=len(plans))
+            return
+    ch.ok(nontrivial=bool(exp[0] or exp[1]), outcome='C', evals=len(plans))
+
+
 def body(ch):
-    part = ch.pick('part', ('tokenize', 'match'))
+    part = ch.pick('part', ('tokenize', 'match', 'find-writes', 'two-callers'))
     kind = ch.pick('tokenizer', ('simple', 'unit'))
+    if part in ('find-writes', 'two-callers'):
+        return shared_matcher(ch, part, kind)
     if part == 'tokenize':
         chunk = ch.pick_index('chunk', (len(CFG['strings_t']) + 4999) // 5000)
         ch.shard()
